@@ -136,7 +136,10 @@ def updateOp (r : Ram) (k : SKey) (op : SugOp) : Except DsErr Ram :=
   | some n =>
     match n.opsOf op.client with
     | none => .error .notFound
-    | some ops => .ok (r.setNode k (n.setOps op.client (ops.map fun x => if x.num == op.num then op else x)))
+    | some ops =>
+      -- `operations[number] = op`: a dict assignment, i.e. an UPSERT (no check that the number exists)
+      .ok (r.setNode k (n.setOps op.client
+        (if ops.any (·.num == op.num) then ops.map fun x => if x.num == op.num then op else x else ops ++ [op])))
 
 def listOps (r : Ram) (k : SKey) (c : String) : Except DsErr (List SugOp) :=
   match r.node k with
